@@ -428,7 +428,90 @@ end Jwt.Generated
     return "OpsTables.lean", text, {"providers": [(t[1], t[2]) for t in tables], "init": init_idx, "parsers": [t[3] for t in tables]}
 
 
-GENERATORS = [gen_base64, gen_alg, gen_common, gen_jwk, gen_ops]
+def gen_cli(repo, build):
+    tools = {}
+    for tool in ("jwt-verify", "jwt-generate", "key2jwk", "jwk2key"):
+        raw = open(os.path.join(repo, "tools", tool + ".c")).read()
+        m = re.search(r'optstr\s*=\s*"([^"]*)"', raw)
+        if not m:
+            raise ExtractError("%s: optstr not found" % tool)
+        optstr = m.group(1)
+        longs = re.findall(r'\{\s*"([\w-]+)"\s*,\s*(no_argument|required_argument|optional_argument)\s*,\s*NULL\s*,\s*\'(.)\'\s*\}', raw)
+        if not longs:
+            raise ExtractError("%s: long option table not found" % tool)
+        usage = re.findall(r'^\s*-(\w), --([\w-]+)(=[\w:=<>.]+)?\s', raw, re.M)
+        if not usage:
+            raise ExtractError("%s: usage option lines not found" % tool)
+        tools[tool] = (optstr, longs, usage)
+    # how jwt-verify turns the number of failed tokens into its exit argument
+    raw = open(os.path.join(repo, "tools", "jwt-verify.c")).read()
+    body = func_body(raw, r"\bint\s+main\s*\(")
+    exits = re.findall(r"exit\s*\(([^;]*)\)\s*;", body)
+    last = exits[-1].strip() if exits else ""
+    forms = [
+        (r"err", "err"),
+        (r"err\s*>\s*(\d+)\s*\?\s*(\d+)\s*:\s*err", None),
+        (r"err\s*\?\s*(EXIT_FAILURE|1)\s*:\s*(EXIT_SUCCESS|0)", "if err ≠ 0 then 1 else 0"),
+        (r"!!\s*err|err\s*!=\s*0", "if err ≠ 0 then 1 else 0"),
+    ]
+    lean_exit = None
+    for rx, lean in forms:
+        mm = re.fullmatch(rx, last)
+        if mm:
+            lean_exit = lean if lean is not None else "if err > %s then %s else err" % (mm.group(1), mm.group(2))
+            break
+    if lean_exit is None:
+        raise ExtractError("jwt-verify main: final exit(%s) is not one of the forms the translator knows" % last)
+    if not re.search(r"err\s*\+=\s*process_one", body):
+        raise ExtractError("jwt-verify main: `err += process_one(...)` accumulation not found")
+    # which EC members key2jwk exports with a fixed width
+    raw = open(os.path.join(repo, "tools", "key2jwk.c")).read()
+    body = func_body(raw, r"\bprocess_ec_key\s*\(")
+    ec = []
+    for name in ("x", "y", "d"):
+        mm = re.search(r"(get_one_bn\w*)\s*\(([^;]*?)\"%s\"([^;]*?)\)\s*;" % name, body)
+        if not mm:
+            raise ExtractError("key2jwk process_ec_key: export of %s not found" % name)
+        ec.append((name, mm.group(1) != "get_one_bn" and mm.group(3).strip().strip(",").strip() not in ("", "0")))
+    padfn = func_body(raw, r"\bget_one_bn_pad\s*\(") if "get_one_bn_pad" in raw else ""
+    uses_binpad = "BN_bn2binpad" in padfn
+
+    def q(s_):
+        return '"' + s_ + '"'
+    rows = []
+    for tool, (optstr, longs, usage) in tools.items():
+        rows.append("  { tool := %s, optstr := %s,\n    longs := [%s],\n    usage := [%s] }" % (
+            q(tool), q(optstr),
+            ", ".join("(%s, %s, %s)" % (q(n), "true" if a == "required_argument" else "false", q(c)) for n, a, c in longs),
+            ", ".join("(%s, %s, %s)" % (q(c), q(n), "true" if a else "false") for c, n, a in usage)))
+    rows_text = ",\n".join(rows)
+    text = f"""/- GENERATED by tie/extract.py from tools/*.c -- do not edit. -/
+namespace Jwt.Generated
+
+structure ToolOpts where
+  tool : String
+  optstr : String
+  /-- long name, takes an argument, short letter -/
+  longs : List (String × Bool × String)
+  /-- usage text lines: short letter, long name, shows `=ARG` -/
+  usage : List (String × String × Bool)
+
+def toolOpts : List ToolOpts := [
+{rows_text}]
+
+/-- jwt-verify `main`: the argument of the final `exit(...)` as a function of `err`, the number of
+tokens that failed (`err += process_one(...)`); source text: `exit({last})` -/
+def verifyExitArg (err : Nat) : Nat := {lean_exit}
+
+/-- key2jwk `process_ec_key`: member ↦ exported with the full coordinate width -/
+def ecMembersFixedWidth : List (String × Bool) := [{", ".join("(%s, %s)" % (q(n), "true" if (f and uses_binpad) else "false") for n, f in ec)}]
+
+end Jwt.Generated
+"""
+    return "CliTables.lean", text, {"exit": last, "ec": ec, "binpad": uses_binpad, "optstr": {t: v[0] for t, v in tools.items()}}
+
+
+GENERATORS = [gen_base64, gen_alg, gen_common, gen_jwk, gen_ops, gen_cli]
 
 
 def main():
